@@ -91,6 +91,17 @@ func c12Mutations(br BuiltRequest, m *synth.Method) []struct {
 		r = clone()
 		r.Body = nil
 		add("body-absent", r)
+		// two validated fields violated at once (the refusal must name the same things on every engine)
+		var obj map[string]any
+		if json.Unmarshal([]byte(*br.Req.Body), &obj) == nil && obj["vmin"] != nil && obj["vsmall"] != nil {
+			obj["vmin"], obj["vsmall"] = "a", 999
+			if b, err := json.Marshal(obj); err == nil {
+				r = clone()
+				bs := string(b)
+				r.Body = &bs
+				add("body-two-fields-invalid", r)
+			}
+		}
 	}
 	if br.Req.Body != nil && br.Req.CType == "application/x-www-form-urlencoded" {
 		r := clone()
